@@ -56,8 +56,10 @@ def strategy(tier):
 def check_selection(what, res, out, want_lines):
     if not want_lines:
         # through the command line the anticipated error is logged and turned into exit status 1
-        core.check((res[0] == "cle" and "No alignments found" in res[1]) or res == ("exit", 1),
-                   "%s: nothing matches, expected the 'No alignments found' error, got %s", what, res)
+        # "reports that nothing was found": an anticipated command-line error (any wording), i.e. CommandLineError from the
+        # API or a non-zero exit status through the command line - not a normal return and not an internal error
+        core.check(res[0] == "cle" or (res[0] == "exit" and res[1] not in (0, None)),
+                   "%s: nothing matches, expected the command to report that nothing was found, got %s", what, res)
         core.check(not out, "%s: nothing matches but output was written: %r", what, out)
         return
     core.check(res[0] == "ok", "%s failed: %s", what, res)
